@@ -25,7 +25,9 @@ type violation struct {
 func (r *rig) checkSnapshot(s *Snap, limitsAfterRun bool) []violation {
 	var out []violation
 	curAcct := -1
-	fail := func(sig, format string, a ...any) { out = append(out, violation{sig, fmt.Sprintf(format, a...), curAcct}) }
+	fail := func(sig, format string, a ...any) {
+		out = append(out, violation{sig, fmt.Sprintf(format, a...), curAcct})
+	}
 	raw := s.raw
 	cfg := r.pool.VerifC19Config()
 	idx := map[common.InternalAddress]int{}
